@@ -115,10 +115,21 @@ def mediaOp (j : Json) : Except String Res := do
       ((hook.zip argv).drop 1).all (fun (h, x) => placeholders.contains h || h == x) &&
       (!hasUrl || sin.isEmpty)
     | _, _ => true
+  -- the three media type placeholders describe one media type: what stands for %mimetype is what
+  -- stands for %supertype, a slash, and what stands for %subtype
+  let oneTypeOk := implSteps.all fun r =>
+    match r.getObjVal? "argv" with
+    | .ok (Json.arr a) =>
+      let argv : List Str := a.toList.map fun v => match v with | Json.str s => s.toList | _ => []
+      let argsFor (ph : String) : List Str := ((hook.zip argv).drop 1).filterMap fun (h, x) => if h == ph.toList then some x else none
+      (argsFor "%mimetype").all fun m => (argsFor "%supertype").all fun sup => (argsFor "%subtype").all fun sub =>
+        argv.length != hook.length || m == sup ++ '/' :: sub
+    | _ => true
   let linksOnly := (j.getObjVal? "links_only").toOption == some (Json.bool true)
   let stepsJson := Json.arr (sels.map (selJson hook linksOnly viaUi)).toArray
   let basePreds := if linksOnly then [("same_number_same_target", sameOk)]
-                  else [("same_opening_same_argv", sameOk), ("argv_is_substituted_hook", argvOk), ("argv_has_the_hooks_shape", shapeOk)]
+                  else [("same_opening_same_argv", sameOk), ("argv_is_substituted_hook", argvOk), ("argv_has_the_hooks_shape", shapeOk),
+                        ("placeholders_describe_one_media_type", oneTypeOk)]
   if !whole then
     return { model := Json.mkObj [("steps", stepsJson)], preds := basePreds, nontrivial := sels.any Option.isSome }
   -- whole item: every number from 0 to two past the last one
